@@ -310,7 +310,8 @@ fn run_ctl(steps: &[Step]) -> CtlResult {
     let c = Ctl::new();
     // tokio context for everything that is dropped by hand below (TransactionPermit::drop and
     // sqlx' PoolConnection::drop both spawn a task)
-    let _ctx = c.rt.enter();
+    let handle = c.rt.handle().clone();
+    let _ctx = handle.enter();
     let mut tasks: std::collections::BTreeMap<u64, TaskSt> = Default::default();
     let mut owner = Owner::Free;
     // reference: tasks parked in begin(), in arrival order (tokio's semaphore is FIFO: whoever gives
@@ -774,6 +775,13 @@ fn run_ctl(steps: &[Step]) -> CtlResult {
     let nt_commit = txs.iter().any(|t| t.fate == Some(true) && !t.ws.is_empty());
     drop(tasks);
     c.quiesce();
+    // the store (and a transaction a defective protocol may have left in it) goes away inside the
+    // runtime context
+    let Ctl { store, rt, .. } = c;
+    let _ = std::panic::catch_unwind(AssertUnwindSafe(move || drop(store)));
+    rt.block_on(async { tokio::task::yield_now().await });
+    drop(_ctx);
+    drop(rt);
     CtlResult {
         req: format!("ctl {}", req.join(" ")),
         ans: format!("{} | {}", ans.join(" "), db),
@@ -786,7 +794,16 @@ fn run_ctl(steps: &[Step]) -> CtlResult {
 }
 
 fn emit_ctl(out: &mut Out, steps: &[Step], origin: &str) -> bool {
-    let r = run_ctl(steps);
+    let r = match std::panic::catch_unwind(AssertUnwindSafe(|| run_ctl(steps))) {
+        Ok(r) => r,
+        Err(_) => {
+            // the store (or sqlx underneath it) panicked outside of any observed statement
+            let req = format!("ctl-crash {:?}", steps.iter().map(|s| format!("{}:{:?}/{:?}", s.task, s.kind, s.cancel)).collect::<Vec<_>>());
+            let n = out.case(&req, "CRASH", false);
+            out.oracle_fail(n, "crash-outside-statement", "a panic escaped while tearing the store down / between statements", &req, "CRASH");
+            return true;
+        }
+    };
     let nt = r.nt_commit && r.abort_kinds.len() >= 2 && r.contended;
     let n = out.case(&r.req, &r.ans, nt);
     out.count(&format!("origin={origin}"));
@@ -1052,28 +1069,37 @@ async fn free_task(store: SqliteStore, task: u64, script: Vec<FreeTx>, log: Arc<
     Ok(())
 }
 
-fn run_free(rng: &mut Rng, out: &mut Out) -> bool {
-    let multi = !rng.chance(1, 4);
+fn run_free(rng: &mut Rng, out: &mut Out, stress: bool) -> bool {
+    let multi = stress || !rng.chance(1, 4);
     let rt = if multi {
-        tokio::runtime::Builder::new_multi_thread().worker_threads(rng.range(2, 4) as usize).enable_all().build().unwrap()
+        tokio::runtime::Builder::new_multi_thread().worker_threads(if stress { 4 } else { rng.range(2, 4) as usize }).enable_all().build().unwrap()
     } else {
         tokio::runtime::Builder::new_current_thread().enable_all().build().unwrap()
     };
-    let ntasks = rng.range(2, 8);
+    let ntasks = if stress { 8 } else { rng.range(2, 8) };
     let mut scripts = vec![];
     let mut n = 0u64;
     for _ in 0..ntasks {
-        let ntx = rng.range(1, 4);
+        let ntx = if stress { 8 } else { rng.range(1, 4) };
         let mut sc = vec![];
         for _ in 0..ntx {
-            let nw = rng.range(0, 5);
+            let nw = if stress { rng.range(0, 1) } else { rng.range(0, 5) };
             let writes: Vec<(u64, bool)> = (0..nw)
                 .map(|_| {
                     n += 1;
                     (n, rng.chance(1, 15))
                 })
                 .collect();
-            let r = rng.below(100);
+            // stress: many permits dropped while other tasks are queued in begin()
+            let r = if !stress {
+                rng.below(100)
+            } else if rng.chance(1, 5) {
+                0 // commit
+            } else if rng.chance(1, 4) {
+                60 // rollback
+            } else {
+                75 // drop(permit): the spawned rollback races with the queued begin() calls
+            };
             let end = if r < 55 {
                 Kind::Commit
             } else if r < 70 {
@@ -1093,10 +1119,12 @@ fn run_free(rng: &mut Rng, out: &mut Out) -> bool {
         }
         scripts.push(sc);
     }
-    let aborts: Vec<Option<u64>> = (0..ntasks).map(|_| if rng.chance(1, 4) { Some(rng.range(0, 3000)) } else { None }).collect();
-    let jitter = rng.below(300);
+    let aborts: Vec<Option<u64>> = (0..ntasks).map(|_| if !stress && rng.chance(1, 4) { Some(rng.range(0, 3000)) } else { None }).collect();
+    let jitter = if stress { 0 } else { rng.below(300) };
     let log: Arc<Mutex<Vec<FreeLog>>> = Default::default();
     let stamp = Arc::new(AtomicU64::new(0));
+    let mut begin_panicked = false;
+    let mut foreign_panic: Option<String> = None;
     let (rows, live) = rt.block_on(async {
         let store = SqliteStore::temporary().await;
         setup_table(&store).await;
@@ -1115,15 +1143,30 @@ fn run_free(rng: &mut Rng, out: &mut Out) -> bool {
             }
         }
         for h in handles {
-            let _ = h.await;
+            if let Err(e) = h.await {
+                if e.is_panic() {
+                    let p = e.into_panic();
+                    let msg = p.downcast_ref::<&str>().map(|s| s.to_string()).or_else(|| p.downcast_ref::<String>().cloned()).unwrap_or_default();
+                    if msg != "boom" {
+                        foreign_panic = Some(msg);
+                    }
+                }
+            }
         }
         // liveness: a later transaction must still be able to start
-        let live = tokio::time::timeout(Duration::from_secs(10), async {
-            let p = store.begin().await?;
-            store.commit(p).await
-        })
+        let st2 = store.clone();
+        let live = tokio::time::timeout(
+            Duration::from_secs(10),
+            futures::FutureExt::catch_unwind(AssertUnwindSafe(async move {
+                let p = st2.begin().await?;
+                st2.commit(p).await
+            })),
+        )
         .await;
-        let live = matches!(live, Ok(Ok(())));
+        if matches!(live, Ok(Err(_))) {
+            begin_panicked = true;
+        }
+        let live = matches!(live, Ok(Ok(Ok(()))));
         let rows = if live { read_table(&store).await } else { Some(vec![]) };
         (rows, live)
     });
@@ -1148,6 +1191,12 @@ fn run_free(rng: &mut Rng, out: &mut Out) -> bool {
     }
     if !live {
         fail = Some(("free-begin-hang".into(), "after all tasks ended a new begin()+commit() did not complete within 10 s".into()));
+    }
+    if let Some(m) = &foreign_panic {
+        fail = Some(("free-task-panic".into(), format!("a task panicked inside the store API: {m}")));
+    }
+    if begin_panicked {
+        fail = Some(("free-begin-panic".into(), "after all tasks ended a new begin() panicked (transaction slot still occupied although the permit was free)".into()));
     }
     for l in &logs {
         let t = l.task;
@@ -1233,7 +1282,7 @@ fn run_free(rng: &mut Rng, out: &mut Out) -> bool {
     };
     let nt = any_commit && kinds.len() >= 2 && ntasks >= 2;
     let n = out.case(&req, &ans, nt);
-    out.count(if multi { "origin=free-multi-thread" } else { "origin=free-current-thread" });
+    out.count(if stress { "origin=free-stress" } else if multi { "origin=free-multi-thread" } else { "origin=free-current-thread" });
     for k in &kinds {
         out.count(&format!("free-abort={k}"));
     }
@@ -1263,7 +1312,7 @@ fn main() {
                 // a `free` case cannot be replayed deterministically: re-run free cases with the same seed family
                 let mut rng = Rng::new(v["case"].as_u64().unwrap_or(1));
                 for _ in 0..50 {
-                    if run_free(&mut rng, &mut out) {
+                    if run_free(&mut rng, &mut out, false) {
                         break;
                     }
                 }
@@ -1273,10 +1322,10 @@ fn main() {
         return;
     }
     let mut rng = Rng::new(args.seed);
-    let (max_k, n_ctl, n_free) = match args.tier {
-        Tier::Quick => (3, 110, 60),
-        Tier::Thorough => (6, 3500, 1500),
-        Tier::Search => (4, 800, 400),
+    let (max_k, n_ctl, n_free, n_stress) = match args.tier {
+        Tier::Quick => (3, 110, 60, 60),
+        Tier::Thorough => (6, 1800, 700, 700),
+        Tier::Search => (4, 800, 400, 800),
     };
     if let Ok(rd) = std::fs::read_dir("/verif/corpus/C10") {
         let mut files: Vec<_> = rd.filter_map(|e| e.ok()).map(|e| e.path()).collect();
@@ -1317,7 +1366,15 @@ fn main() {
         if failures >= 6 {
             break;
         }
-        if run_free(&mut rng, &mut out) {
+        if run_free(&mut rng, &mut out, false) {
+            failures += 1;
+        }
+    }
+    for _ in 0..n_stress {
+        if failures >= 6 {
+            break;
+        }
+        if run_free(&mut rng, &mut out, true) {
             failures += 1;
         }
     }
